@@ -421,6 +421,107 @@ fn fn_any_num(v: &RVal, f: &dyn Fn(&RVal) -> bool) -> bool {
     }
 }
 
+/// Rows produced by arbitrary generated expressions (every function can feed the printer):
+/// validity, style shape, agreement of the three styles and the fixpoint - no expected value
+/// is needed for any of these.
+#[derive(Clone, Debug, Serialize, Deserialize)]
+pub struct CaseRows {
+    pub selects: Vec<crate::expr::Expr>,
+    pub inputs: Vec<String>,
+    pub utf8: bool,
+}
+
+pub struct C02ExprRows;
+impl Check for C02ExprRows {
+    type Case = CaseRows;
+    fn name(&self) -> &'static str {
+        "C02.expr_rows"
+    }
+    fn cases(&self, tier: Tier) -> u64 {
+        tier.pick(30_000, 1_000_000)
+    }
+    fn strategy(&self, _t: Tier) -> BoxedStrategy<CaseRows> {
+        (vec(any::<u32>(), 0..400), any::<bool>())
+            .prop_map(|(tape, utf8)| {
+                use crate::expr::*;
+                let mut g = Gen::new(&tape, GenCfg { ill: 1, wild_numbers: true, exclude: vec!["exec", "trigger", "now", "env"], ..GenCfg::default() });
+                let env = Env::top();
+                let n = 1 + g.tape.below(3);
+                let selects = (0..n)
+                    .map(|_| {
+                        let k = *g.tape.pick(LEAF_KINDS);
+                        g.expr(k, 3, &env)
+                    })
+                    .collect();
+                let m = 1 + g.tape.below(3);
+                let inputs = (0..m).map(|_| g.record()).collect();
+                CaseRows { selects, inputs, utf8 }
+            })
+            .boxed()
+    }
+    fn check(&self, c: &CaseRows) -> CaseResult {
+        let mut base: Vec<String> = c.selects.iter().enumerate().map(|(i, e)| crate::expr::select_arg(e, &format!("c{}", i), &crate::expr::Spell::CANON)).collect();
+        if c.utf8 {
+            base.push("--utf8-strings".into());
+        }
+        let input: Vec<u8> = c.inputs.join("\n").into_bytes();
+        let mut stripped: Vec<Vec<Vec<u8>>> = Vec::new();
+        let mut nonascii = false;
+        let mut floats = false;
+        for (si, style) in STYLES.iter().enumerate() {
+            let mut args = base.clone();
+            args.push(format!("--style={}", style));
+            let o = run(&args, &input);
+            if !o.res.is_ok() {
+                return CaseResult::Fail(format!("run failed: {} (args {:?})", o.res.short(), args));
+            }
+            let rows = match split_rows(&o.stdout, b"\n") {
+                Ok(r) => r,
+                Err(e) => return CaseResult::Fail(format!("style {}: output is not `row LF` framed valid JSON: {} [{}] (args {:?})", style, e, esc_trunc(&o.stdout, 300), args)),
+            };
+            if rows.len() != c.inputs.len() {
+                return CaseResult::Fail(format!("style {}: {} rows for {} inputs", style, rows.len(), c.inputs.len()));
+            }
+            let mut st = Vec::new();
+            for (_, s, e) in &rows {
+                let row = &o.stdout[*s..*e];
+                if let Err(m) = check_shape(row, si as u8) {
+                    return CaseResult::Fail(format!("style {}: {} in {} (args {:?})", style, m, esc_trunc(row, 300), args));
+                }
+                if !c.utf8 && !row.is_ascii() {
+                    return CaseResult::Fail(format!("style {}: non-ASCII byte without --utf8-strings in {}", style, esc_trunc(row, 300)));
+                }
+                nonascii |= row.windows(2).any(|w| w == b"\\u") || !row.is_ascii();
+                floats |= row.contains(&b'.');
+                match strip_ws(row) {
+                    Ok(x) => st.push(x),
+                    Err(m) => return CaseResult::Fail(m),
+                }
+            }
+            stripped.push(st);
+            // fixpoint: jawk reproduces its own output
+            let mut fargs = vec![format!("--style={}", style)];
+            if c.utf8 {
+                fargs.push("--utf8-strings".into());
+            }
+            let again = run(&fargs, &o.stdout);
+            if !again.res.is_ok() || again.stdout != o.stdout {
+                // the one listed finding: astral characters are escaped with 5/6 hex digits
+                let astral = o.stdout.windows(7).any(|w| w[0] == b'\\' && w[1] == b'u' && w[2..7].iter().all(|h| h.is_ascii_hexdigit()) && w[2] == b'1') || String::from_utf8_lossy(&o.stdout).chars().any(|ch| ch as u32 > 0xFFFF);
+                if astral {
+                    return CaseResult::Known { key: "astral-escape-5hex", what: format!("rows with astral characters are not a fixpoint: {}", esc_trunc(&o.stdout, 200)), info: Info::new(false).class("astral") };
+                }
+                return CaseResult::Fail(format!("style {}: feeding the output back does not reproduce it: {} -> {} ({})", style, esc_trunc(&o.stdout, 300), esc_trunc(&again.stdout, 300), again.res.short()));
+            }
+        }
+        if stripped[0] != stripped[1] || stripped[1] != stripped[2] {
+            return CaseResult::Fail(format!("the three styles differ by more than whitespace (args {:?})", base));
+        }
+        let some = stripped[0].iter().any(|r| r.len() > 2);
+        CaseResult::Pass(Info::new(some).class_if(nonascii, "non_ascii_or_escaped").class_if(floats, "fraction").class_if(c.utf8, "utf8_strings").weight(5).obs(json!({"args": base, "row": stripped[0].first().map(|r| esc_trunc(r, 200))})))
+    }
+}
+
 pub fn run_all(ctx: &mut Ctx) {
     ctx.rule = "cases = 1..3 generated JSON values (full Unicode alphabet, boundary and extreme numbers, nesting up to 64) or expression results (+ - * / on extreme operands, concat, stringify, sum) x style {one-line, consise, pretty, default} x --utf8-strings x 7 row separators; every case is also run in the other styles and fed back as input; non-trivial = a value with nesting >= 2, a non-ASCII/control character, a non-integer or > 2^53 number, or an arithmetic result; distinct = distinct (input, options) by hash".into();
     ctx.assumptions = vec![
@@ -428,7 +529,9 @@ pub fn run_all(ctx: &mut Ctx) {
         "pretty = every element/member and every closing bracket of a non-empty collection on its own line, indentation = depth x one constant unit; empty collections unconstrained".into(),
         "arithmetic results are compared with relative tolerance 1e-12; a non-finite result may be absent".into(),
     ];
+    ctx.rule.push_str(". C02.expr_rows: 1..3 generated expressions (any of the 108 pure functions, wild numbers) selected on 1..3 generated records x the three styles x --utf8-strings: every row strict-parses and is LF-framed, has the whitespace shape of its style, is ASCII without --utf8-strings, the three styles agree after deleting whitespace, and jawk reproduces its own output; no expected value is involved");
     C02Print.run(ctx);
+    C02ExprRows.run(ctx);
     let d = ctx.stats.get("C02.print").map(|s| s.discarded).unwrap_or(0);
     if d > 0 {
         ctx.inconclusive.push(format!("C02.print: {} generated inputs were rejected by the harness' own strict reader (generator bug)", d));
@@ -436,5 +539,5 @@ pub fn run_all(ctx: &mut Ctx) {
 }
 
 pub fn checks() -> Vec<Box<dyn DynCheck>> {
-    vec![Box::new(C02Print)]
+    vec![Box::new(C02Print), Box::new(C02ExprRows)]
 }
